@@ -6,7 +6,9 @@
               id     value of its X-Verif-Id header (unique per connection)
               kind   0 well-formed and complete; 1 well-formed with "Expect: 100-continue" and the body withheld
                      (the client sends the body only after "100 Continue"); 2 malformed head (the server can only
-                     answer an error and close); 3 well-formed but the stream ends inside its body (last request)
+                     answer an error and close); 3 well-formed head but the stream ends inside its body;
+                     4 well-formed head but the chunked framing of the body is not valid (size line empty, not
+                     1*HEXDIG [ext], over 64 bits ...): the server cannot know where the body ends
               head   1 iff the method is HEAD;  expect  1 iff it carries "Expect: 100-continue"
      script   VL [VB key; VZ src; VZ read; VZ status; VL hdrs; VL pieces; VZ err]: the handler of the request whose
               X-Verif-Spec header is key (see KeepAlive.v script); handlers echo the X-Verif-Id they saw as X-Req
@@ -27,7 +29,7 @@ Definition dec_hdr (v : val) : option (bytes * bytes) :=
 Definition dec_req (v : val) : option creq :=
   match v with
   | VL [VB b; VB id; VZ kind; VZ head; VZ expect] =>
-    if (0 <=? kind) && (kind <=? 3) && ((head =? 0) || (head =? 1)) && ((expect =? 0) || (expect =? 1))
+    if (0 <=? kind) && (kind <=? 4) && ((head =? 0) || (head =? 1)) && ((expect =? 0) || (expect =? 1))
     then Some {| c_bytes := b; c_id := id; c_kind := kind; c_head := head =? 1; c_expect := expect =? 1 |} else None
   | _ => None
   end.
@@ -101,7 +103,7 @@ Fixpoint check_responses (rs : list creq) (s : bytes) {struct rs} : bool :=
            end &&
            (if is_error_status (p_status p) && negb (has_ci s_xreq (p_fields p)) then is_empty (p_rest p) else true) &&
            (if (c_kind r =? 1) && negb continued then is_empty (p_rest p)      (* body position unknown: must close *)
-            else if c_kind r =? 3 then is_empty (p_rest p)
+            else if (c_kind r =? 3) || (c_kind r =? 4) then is_empty (p_rest p)   (* body not delimitable: must close *)
             else check_responses rest (p_rest p)))
       end
   end.
